@@ -21,6 +21,7 @@ PROPS = {
 }
 
 BOARD_IMPL = ['Impl/ImplBoard.v']
+WIDEN_THOROUGH = ['C01', 'C02', 'C06', 'C09']
 PENDING = 'oracle and correspondence with kernel-checked tie lemmas; property theorems pending (see DESIGN.md section 9)'
 
 def _board(pid, cases, rule, expl, extra_files=(), level='other'):
@@ -199,6 +200,10 @@ PROPS['C16'] = _board('C16', [],
     'randomly timed command scripts (isready, stop, new position / go / ucinewgame during a search, junk and empty lines, quit and end of input while searching) against the real driver with the four bundled engine configurations, under the race detector; positions alternate the side to move so that an answer computed for a superseded search is recognisably illegal.',
     'No panic, no data race, output closed within a timeout after quit / end of input, one readyok per isready, no bestmove that is illegal in the position last set up (stale), no duplicate answers.')
 PROPS['C16'].update({'stress': ['C16']})
+
+for _p in WIDEN_THOROUGH:
+    if _p in PROPS:
+        PROPS[_p]['widen_tier'] = 'thorough'
 
 # Every listed property is claimed; reasons would go here otherwise.
 NOT_APPLICABLE = [
